@@ -149,6 +149,7 @@ type avar struct {
 	ro       bool // must not be assigned (loop variables while their loop runs, parameters)
 	depth    int  // block depth at which it was defined
 	writes   int  // number of statements generated so far that write to it
+	amarks   int  // number of times another reference to its object was really created
 }
 
 type afunc struct {
